@@ -12,7 +12,11 @@ export CARGO_TARGET_DIR=$WT/target CARGO_NET_OFFLINE=true
 cd $WT || exit 2
 git checkout -q -- . && git clean -qfd -e OUT -e target
 [ -f $D/patch.diff ] && [ -f $D/demo.diff ] && [ -f $D/meta.json ] || { echo "$ID: missing deliverables"; exit 2; }
-FILTER=$(python3 -c "import json,sys; print(json.load(open('$D/meta.json'))['demo_test'])")
+FILTER=$(python3 -c "
+import json,re
+f=json.load(open('$D/meta.json'))['demo_test']
+f=re.sub(r'^\s*cargo\s+test\s+','',f).replace('--offline','').strip()
+print(f)")
 count() { grep -E '^test result' | awk '{p+=$4; f+=$6} END{print p" "f}'; }
 git apply $D/patch.diff || { echo "$ID: patch does not apply"; exit 2; }
 R1=$(cargo test --workspace --no-fail-fast --offline 2>&1 | count)
